@@ -84,8 +84,19 @@ def hierarchy_law(rep: common.Report) -> int:
 
 SER_SRC = '''
 from dataclasses import dataclass
-from typing import Annotated, Literal, Union
+from typing import Annotated, Literal, NamedTuple, TypedDict, Union
 from apischema import discriminator
+
+
+class Seg(TypedDict):
+    kind: Literal["seg"]
+    length: int
+
+
+class Pt(NamedTuple):
+    x: int = 0
+
+
 
 
 @dataclass
@@ -105,6 +116,8 @@ class Tri:
 
 
 Shape = Annotated[Union[Circle, Square, Tri], discriminator("kind")]
+# a discriminated union MIXING a TypedDict (a plain dict, told by its discriminator key) with classes
+Mixed = Annotated[Union[Seg, Square, Pt], discriminator("kind")]
 
 
 @discriminator("type")
@@ -134,13 +147,14 @@ def serialization_law(rep: common.Report) -> int:
     exec(compile(SER_SRC, "<verifunionser>", "exec"), mod.__dict__)
     n = 0
     cases = [(mod.Shape, "kind", v) for v in (mod.Circle("circle", 5), mod.Circle("disc", 5), mod.Square(4), mod.Tri())] + \
+            [(mod.Mixed, "kind", v) for v in (mod.Square(4), mod.Pt(3), {"kind": "seg", "length": 2})] + \
             [(mod.Pet, "type", v) for v in (mod.Kit("cat"), mod.Kit("kitten"), mod.Pup())] + \
             [(Union[mod.Kit, mod.Pup], "type", v) for v in (mod.Kit("kitten"), mod.Pup())]
     for tp, key, v in cases:
         n += 1
         try:
             got = serialize(tp, v)
-            own = serialize(type(v), v)
+            own = serialize(mod.Seg if isinstance(v, dict) else type(v), v)
             back = deserialize(tp, got)
         except Exception as exc:
             rep.violation(f"serialization law: {v!r} under its union raised {type(exc).__name__}: {exc}", {"value": repr(v)})
